@@ -501,31 +501,35 @@ structure FeedResult where
 /-- One byte through the framer, exactly the three `process_*` functions restricted to a
     one-byte slice, followed (after a complete length) by the zero-length-body check that the
     `while let Continue` loop of `decode_bytes` performs on the empty remainder. -/
+def stepLength (cfg : DecodeCfg) (d : Decoder) (b : UInt8) : Decoder × List Packet × Option DecErr :=
+  let scratch := d.scratch ++ [b]
+  match decodeVli scratch with
+  | .value rl _ =>
+    if rl + 1 + scratch.length ≤ cfg.limit then
+      if rl = 0 then
+        match decodePacket cfg.version d.firstByte [] with
+        | .ok p => ({ state := .readType, scratch := [], firstByte := 0, remaining := 0 }, [p], none)
+        | .error e => ({ d with state := .terminal, scratch := [], remaining := 0 }, [], some e)
+      else ({ d with state := .readBody, scratch := [], remaining := rl }, [], none)
+    else ({ d with state := .terminal, scratch := scratch }, [], some .decodingFailure)
+  | _ =>
+    if scratch.length ≥ 4 then ({ d with state := .terminal, scratch := scratch }, [], some .decodingFailure)
+    else ({ d with scratch := scratch }, [], none)
+
+def stepBody (cfg : DecodeCfg) (d : Decoder) (b : UInt8) : Decoder × List Packet × Option DecErr :=
+  let scratch := d.scratch ++ [b]
+  if scratch.length < d.remaining then ({ d with scratch := scratch }, [], none)
+  else
+    match decodePacket cfg.version d.firstByte scratch with
+    | .ok p => ({ state := .readType, scratch := [], firstByte := 0, remaining := 0 }, [p], none)
+    | .error e => ({ d with state := .terminal, scratch := scratch }, [], some e)
+
 def stepByte (cfg : DecodeCfg) (d : Decoder) (b : UInt8) : Decoder × List Packet × Option DecErr :=
   match d.state with
   | .terminal => (d, [], some .decodingFailure)
   | .readType => ({ d with state := .readLength, firstByte := b, scratch := [] }, [], none)
-  | .readLength =>
-    let scratch := d.scratch ++ [b]
-    match decodeVli scratch with
-    | .value rl _ =>
-      if rl + 1 + scratch.length ≤ cfg.limit then
-        if rl = 0 then
-          match decodePacket cfg.version d.firstByte [] with
-          | .ok p => ({ state := .readType, scratch := [], firstByte := 0, remaining := 0 }, [p], none)
-          | .error e => ({ d with state := .terminal, scratch := [], remaining := 0 }, [], some e)
-        else ({ d with state := .readBody, scratch := [], remaining := rl }, [], none)
-      else ({ d with state := .terminal, scratch := scratch }, [], some .decodingFailure)
-    | _ =>
-      if scratch.length ≥ 4 then ({ d with state := .terminal, scratch := scratch }, [], some .decodingFailure)
-      else ({ d with scratch := scratch }, [], none)
-  | .readBody =>
-    let scratch := d.scratch ++ [b]
-    if scratch.length < d.remaining then ({ d with scratch := scratch }, [], none)
-    else
-      match decodePacket cfg.version d.firstByte scratch with
-      | .ok p => ({ state := .readType, scratch := [], firstByte := 0, remaining := 0 }, [p], none)
-      | .error e => ({ d with state := .terminal, scratch := scratch }, [], some e)
+  | .readLength => stepLength cfg d b
+  | .readBody => stepBody cfg d b
 
 /-- `Decoder::decode_bytes` on a whole slice, as the fold of `stepByte`; stops at the first error
     (the rest of the slice is discarded by the code as well). -/
